@@ -353,6 +353,19 @@ type Mutation { createTodo(input: NewTodo!): Todo! }
 		"gqlgen.yml": "schema:\n  - \"*.graphql\"\nexec:\n  filename: graph/generated.go\n  package: graph\n" +
 			"model:\n  filename: graph/model/models_gen.go\n  package: model\nautobind:\n  - \"verif/work/gen/c18/autob/graph/model\"\nskip_mod_tidy: true\nskip_validation: true\n",
 	}})
+	// follow-schema exec layout with the federation plugin: the plugin's own sources
+	// (federation/directives.graphql, federation/entity.graphql) share their base names with user
+	// schema files that declare no object or input type (directives and enums only)
+	ps = append(ps, &project{Name: "fedfs", Kind: "federation-follow-schema", Dirs: []string{"graph"}, Files: map[string]string{
+		"graph/directives.graphqls": "directive @auth(role: Role!) on FIELD_DEFINITION | OBJECT\ndirective @audit(tag: String) on FIELD_DEFINITION\nenum Role { ADMIN USER }\n",
+		"graph/entity.graphqls":     "enum Shade { DARK LIGHT }\nscalar Stamp\n",
+		"graph/schema.graphqls": `extend schema @link(url: "https://specs.apollo.dev/federation/v2.3", import: ["@key", "@shareable"])
+type User @key(fields: "id") { id: ID! name: String @auth(role: ADMIN) shade: Shade stamp: Stamp @audit(tag: "s") }
+type Query { me: User @auth(role: USER) }
+`,
+		"gqlgen.yml": "schema:\n  - \"graph/*.graphqls\"\nexec:\n  layout: follow-schema\n  dir: graph\n  package: graph\nfederation:\n  filename: graph/federation.go\n  package: graph\n  version: 2\n" +
+			"model:\n  filename: graph/model/models_gen.go\n  package: model\nskip_mod_tidy: true\nskip_validation: true\n",
+	}})
 	// several runtime directives on the same executable locations: the generated middleware switch
 	// has one case per directive
 	ps = append(ps, &project{Name: "execdirs", Kind: "executable-directives", Dirs: []string{"graph"}, Files: map[string]string{
